@@ -81,6 +81,10 @@ type c07Case struct {
 	// ExtTS: value of the extension's own claim (-75100 / "timestamp"); the
 	// harness's extension profiles reject negative values in Validate()
 	ExtTS *int64 `json:"extension_timestamp,omitempty"`
+	// Extra: unknown entries added to the token, which every profile ignores:
+	// 1 = an integer label, 2 = a text label (CBOR) / another member (JSON),
+	// 4 = a negative label; bits may be combined
+	Extra int `json:"extra_unknown_entries,omitempty"`
 }
 
 // jsonEscapedString renders s as a JSON string using non-canonical but
@@ -190,6 +194,15 @@ func (c *c07Case) cborToken(withS2 bool) []byte {
 	}
 	if c.ExtTS != nil {
 		ps = append(ps, icbor.P(icbor.I(-75100), icbor.I(*c.ExtTS)))
+	}
+	if c.Extra&1 != 0 {
+		ps = append(ps, icbor.P(icbor.U(99999), icbor.Tstr("vendor")))
+	}
+	if c.Extra&2 != 0 {
+		ps = append([][2]*icbor.Node{icbor.P(icbor.Tstr("build"), icbor.U(7))}, ps...)
+	}
+	if c.Extra&4 != 0 {
+		ps = append(ps, icbor.P(icbor.I(-70001), icbor.Arr(icbor.U(1))))
 	}
 	if n := slotCBOR(c.S2); n != nil && withS2 {
 		// in the middle: dispatch must not depend on position
@@ -308,6 +321,15 @@ func (c *c07Case) jsonDoc(withS2 bool) []byte {
 	if c.ExtTS != nil {
 		o.keys = append(o.keys, "timestamp")
 		o.vals = append(o.vals, jNum(fmt.Sprint(*c.ExtTS)))
+	}
+	if c.Extra&1 != 0 {
+		o.keys, o.vals = append(o.keys, "99999"), append(o.vals, jStr("vendor"))
+	}
+	if c.Extra&2 != 0 {
+		o.keys, o.vals = append([]string{"build"}, o.keys...), append([]*jn{jNum("7")}, o.vals...)
+	}
+	if c.Extra&4 != 0 {
+		o.keys, o.vals = append(o.keys, "vendor-profile"), append(o.vals, jArr(jNum("1")))
 	}
 	if c.EscVal {
 		for i, v := range o.vals {
@@ -542,6 +564,24 @@ func c07Check(c *c07Case) string {
 	ex := c.expect()
 	r, err := dec(tok)
 	rv, errv := decv(tok)
+	if c.Format == "json" {
+		// the deprecated v1 names are aliases of the two decoders
+		ru, erru := psatoken.DecodeUnvalidatedJSONClaims(tok)
+		rd, errd := psatoken.DecodeJSONClaims(tok)
+		if (erru == nil) != (err == nil) || (errd == nil) != (errv == nil) {
+			return fmt.Sprintf("the deprecated aliases disagree with the decoders they stand for: DecodeUnvalidatedJSONClaims err=%v vs DecodeClaimsFromJSON err=%v; DecodeJSONClaims err=%v vs DecodeAndValidateClaimsFromJSON err=%v\n  token: %s", erru, err, errd, errv, truncate(string(tok), 400))
+		}
+		if err == nil {
+			if d := Observe(r).Diff(Observe(ru)); d != "" || fmt.Sprintf("%T", r) != fmt.Sprintf("%T", ru) {
+				return "DecodeUnvalidatedJSONClaims decodes differently from DecodeClaimsFromJSON: " + d
+			}
+		}
+		if errv == nil {
+			if d := Observe(rv).Diff(Observe(rd)); d != "" || fmt.Sprintf("%T", rv) != fmt.Sprintf("%T", rd) {
+				return "DecodeJSONClaims decodes differently from DecodeAndValidateClaimsFromJSON: " + d
+			}
+		}
+	}
 	otherTrafficEvery(8)
 	if err == nil && r == nil || errv == nil && rv == nil {
 		return "decoder returned neither claims nor an error"
@@ -686,7 +726,7 @@ func drawSlot(t *rapid.T, label string, kinds []string) slotVal {
 
 func TestC07_Dispatch(t *testing.T) {
 	st := NewStats("C07", "TestC07_Dispatch", "rapid: a body of profile-1 or profile-2 claims (valid, or with 1..2 rule deviations) in CBOR (independent encoder; optionally with the other profile's complete body mixed in), the same CBOR as payload of a signed COSE envelope decoded by an Evidence that is fresh or already holds claims of either profile (decoded, attached, or after a failed decode), or JSON (harness's own writer; profile strings and member names optionally written with equivalent escape sequences); tokens for the extension profiles may carry the extension's own claim with a value its Validate() rejects; optionally after registrations that must be refused (existing names, claims types without usable profile field), combined with every class of profile claim under each profile's key/member (-75000 / 265, psa-profile / eat-profile / x-profile): absent, null, undefined, empty, non-text, one of 24 names (the two built-ins, three extension names, unknown URIs, and look-alikes that case / URL / whitespace normalisation would map onto a registered name), under one key or both; with every subset of three extra profiles registered through the checkpoint hook (an extension of profile 2 sharing eat-profile, an extension of profile 1 sharing psa-profile, one with its own JSON member). Oracle: reference dispatcher (CBOR: key 265 absent -> profile 1, registered name -> that profile, other text -> error; JSON: exactly one registered name matched -> it, a present non-null profile member matching nothing or two profiles matched -> error, none present -> profile 1); result type = selected profile's; decode-and-validate succeeds iff the token is valid under THAT profile's rules (independent model, cross-read member names); accepted token reports the declared name and the wire values; NewClaims(p) reports p for every registered p and fails otherwise. Key 265 holding a non-text item: error. Key 265 holding ''/null/undefined or the profile-1 name: error or identical to the token without it. Non-trivial = profile claim not simply present-and-matching with nothing else registered; distinct = format + slots + registered set + validity class")
-	st.Require = []string{"cbor", "json", "cose", "cose-used-evidence", "after-refused-registration", "json-escapes", "extension-own-rule-violated", "expect=error", "expect=soft", "expect=selected-valid", "expect=selected-invalid", "sel=default", "sel=extension", "reg=0", "reg>0", "both-keys", "cross-profile"}
+	st.Require = []string{"cbor", "json", "cose", "cose-used-evidence", "after-refused-registration", "json-escapes", "extra-unknown-entries", "extension-own-rule-violated", "expect=error", "expect=soft", "expect=selected-valid", "expect=selected-invalid", "sel=default", "sel=extension", "reg=0", "reg>0", "both-keys", "cross-profile"}
 	defer st.Flush(t)
 	registerMu.Lock()
 	defer registerMu.Unlock()
@@ -698,6 +738,9 @@ func TestC07_Dispatch(t *testing.T) {
 		if c.Format == "json" {
 			c.EscVal = rapid.IntRange(0, 3).Draw(t, "escval") == 0
 			c.EscKey = rapid.IntRange(0, 5).Draw(t, "esckey") == 0
+		}
+		if rapid.IntRange(0, 2).Draw(t, "extra") == 0 {
+			c.Extra = rapid.IntRange(1, 7).Draw(t, "extra.bits")
 		}
 		if rapid.IntRange(0, 2).Draw(t, "ext.ts") == 0 {
 			ts := rapid.SampledFrom([]int64{0, 1, 1700000000, -1, -1700000000, 1 << 40, extTSNotInProfile, extTSOptionalish}).Draw(t, "ext.ts.val")
@@ -814,6 +857,9 @@ func TestC07_Dispatch(t *testing.T) {
 		if c.EscVal || c.EscKey {
 			defer st.Class("json-escapes")
 		}
+		if c.Extra != 0 {
+			defer st.Class("extra-unknown-entries")
+		}
 		if extRuleBroken(c.ExtTS) && !ex.Err && !ex.Soft && ex.Sel != nil && ex.Sel.Impl != nil {
 			defer st.Class("extension-own-rule-violated")
 		}
@@ -853,7 +899,7 @@ func TestC07_Dispatch(t *testing.T) {
 		if !simple {
 			regs := append([]int{}, c.Reg...)
 			sort.Ints(regs)
-			key = fmt.Sprintf("%v%v%v|%s|%s|%v|%v|%v|%v|%v|%v|%s", c.EscVal, c.EscKey, extRuleBroken(c.ExtTS), c.Format, c.Prior, c.FailedReg, c.S1, c.S2, c.SX, regs, c.Other != nil, strings.Join(cls, ","))
+			key = fmt.Sprintf("%d%v%v%v|%s|%s|%v|%v|%v|%v|%v|%v|%s", c.Extra, c.EscVal, c.EscKey, extRuleBroken(c.ExtTS), c.Format, c.Prior, c.FailedReg, c.S1, c.S2, c.SX, regs, c.Other != nil, strings.Join(cls, ","))
 			if body.Valid() {
 				key += "|" + q.String()
 			} else {
